@@ -539,7 +539,9 @@ def plan_merge(run, prop, tier):
     if tier == "quick":
         plan = [dict(profile="merge", n=2, cap=32, steps=1500, seed=s * 100 + 31, window=12),
                 dict(profile="merge", n=16, cap=256, steps=1500, seed=s * 100 + 32, window=200),
-                dict(profile="merge", n=3, cap=20, steps=1200, seed=s * 100 + 33, window=9)]
+                dict(profile="merge", n=3, cap=20, steps=1200, seed=s * 100 + 33, window=9),
+                dict(profile="merge", n=2, cap=24, steps=1000, seed=s * 100 + 37, window=24),      # ids up to the very last slot
+                dict(profile="merge", n=4, cap=64, steps=1500, seed=s * 100 + 38, window=64)]      # many multi-group / full-group trees
     else:
         plan = [dict(profile="merge", n=n, cap=cap, steps=5000, seed=s * 1000 + 90 + i, window=w)
                 for i, (n, cap, w) in enumerate([(1, 16, 8), (2, 32, 12), (3, 20, 9), (4, 64, 40), (8, 128, 100), (16, 256, 200), (16, 24, 14)])]
@@ -658,7 +660,8 @@ def plan_export(run, prop, tier):
           dict(profile="cycle", n=16, cap=256, steps=1800, seed=s * 100 + 83, window=10, observe=40),
           dict(profile="fan", n=16, cap=64, steps=1200, seed=s * 100 + 84, window=24, observe=30),
           dict(profile="high", n=16, cap=256, steps=1200, seed=s * 100 + 85, window=30, observe=30),
-          dict(profile="groups14", n=2, cap=64, steps=1200, seed=s * 100 + 86, window=24, observe=30)]
+          dict(profile="groups14", n=2, cap=64, steps=1200, seed=s * 100 + 86, window=24, observe=30),
+          dict(profile="cycle", n=1, cap=64, steps=1500, seed=s * 100 + 87, window=10, observe=40)]     # N = 1: chains, paths 18 vertices deep
     if tier == "thorough":
         op += [dict(profile="observe", n=n, cap=cap, steps=8000, seed=s * 1000 + 800 + i, window=w) for i, (n, cap, w) in enumerate([(1, 12, 8), (3, 32, 14), (4, 64, 24), (8, 128, 40), (16, 64, 60)])]
     e3_drive(run, acc, op, label="E3 observers")
@@ -683,9 +686,14 @@ def plan_script(run, prop, tier):
         jobs.append(("programs <=4 commands, ids {0,2,3}, vars {x,y}", cfg_scriptgen(6, 4, [0, 2, 3], ["x", "y"], ["foo", "b"], datas), [(2, 6)], 1))
     s_ = vlib.seed()
     sp = [dict(profile="script", n=2, cap=64, steps=2500, seed=s_ * 100 + 71, window=12),
-          dict(profile="script", n=16, cap=256, steps=2000, seed=s_ * 100 + 72, window=30)]
+          dict(profile="script", n=16, cap=256, steps=2000, seed=s_ * 100 + 72, window=30),
+          # scripts at the limits: one script with 33-48 variables, then the limit life-cycles (groups of 16, edges inside a full
+          # group, 14 groups alive, collected and re-created ids) with every add/bind/put deployed as script chunks of 1-40 commands
+          dict(profile="cyclescript", n=2, cap=64, steps=350, seed=s_ * 100 + 75, window=10),
+          dict(profile="cyclescript", n=16, cap=130, steps=350, seed=s_ * 100 + 76, window=10)]
     if tier == "thorough":
         sp += [dict(profile="script", n=n, cap=cap, steps=6000, seed=s_ * 1000 + 700 + i, window=w) for i, (n, cap, w) in enumerate([(1, 64, 8), (3, 128, 16), (4, 256, 24), (8, 200, 40)])]
+        sp += [dict(profile="cyclescript", n=n, cap=cap, steps=1200, seed=s_ * 1000 + 720 + i, window=10) for i, (n, cap) in enumerate([(1, 64), (3, 100), (4, 256), (8, 74), (16, 64)])]
     e3_drive(run, acc, sp, label="E3 scripts on graphs with history")
     for name, cfg, runs, stride in jobs:
         path, cached = vlib.emit_ts(run, "ScriptGen", cfg, workers=8, timeout=3000)
@@ -934,12 +942,20 @@ def plan_c07(run, prop, tier):
                 dict(profile="limits", n=4, cap=30, steps=2500, seed=s * 100 + 64, window=30),
                 dict(profile="twin", n=2, cap=16, steps=1200, seed=s * 100 + 65, window=9),
                 dict(profile="merge", n=2, cap=32, steps=800, seed=s * 100 + 66, window=12),
-                dict(profile="slice", n=4, cap=16, steps=800, seed=s * 100 + 67, window=12)]
+                dict(profile="slice", n=4, cap=16, steps=800, seed=s * 100 + 67, window=12),
+                # life-cycles at the limits (16 members, all 14 slots), copies taken there, the same through scripts, slices of 14
+                dict(profile="cycle", n=2, cap=64, steps=900, seed=s * 100 + 68, window=10),
+                dict(profile="cycletwin", n=16, cap=130, steps=900, seed=s * 100 + 69, window=10),
+                dict(profile="cyclescript", n=4, cap=64, steps=250, seed=s * 100 + 70, window=10),
+                dict(profile="slice", n=16, cap=64, steps=600, seed=s * 100 + 73, window=14),
+                dict(profile="merge", n=16, cap=256, steps=800, seed=s * 100 + 74, window=200)]
     else:
         plan = [dict(profile="limits", n=n, cap=cap, steps=20000, seed=s * 1000 + 600 + i, window=w)
                 for i, (n, cap, w) in enumerate([(1, 30, 8), (2, 32, 10), (2, 30, 30), (3, 40, 12), (4, 30, 30), (8, 64, 20), (16, 64, 20), (16, 256, 40), (2, 17, 17)])]
         plan += [dict(profile=p_, n=n, cap=cap, steps=5000, seed=s * 1000 + 650 + i, window=w)
-                 for i, (p_, n, cap, w) in enumerate([("twin", 2, 16, 9), ("merge", 2, 32, 12), ("slice", 4, 16, 12), ("mixed", 16, 256, 40), ("groups14", 2, 64, 20), ("big16", 16, 40, 30)])]
+                 for i, (p_, n, cap, w) in enumerate([("twin", 2, 16, 9), ("merge", 2, 32, 12), ("slice", 4, 16, 12), ("mixed", 16, 256, 40), ("groups14", 2, 64, 20), ("big16", 16, 40, 30),
+                                                    ("cycle", 2, 64, 10), ("cycle", 1, 200, 10), ("cycletwin", 16, 130, 10), ("cycletwin", 3, 64, 10),
+                                                    ("cyclescript", 4, 64, 10), ("slice", 16, 64, 14), ("merge", 16, 256, 200), ("alloc", 2, 120, 10)])]
     by_n = {}
     for p_ in plan:
         by_n.setdefault(p_["n"], []).append(p_)
